@@ -3,6 +3,7 @@ from __future__ import annotations
 
 from . import AString
 from .. import Params, Parseable
+from ..exceptions import NotParseable
 from ..modutf7 import modutf7_encode, modutf7_decode
 
 __all__ = ['Mailbox']
@@ -37,7 +38,10 @@ class Mailbox(Parseable[str]):
         mailbox = atom.value
         if mailbox.upper() == b'INBOX':
             return cls('INBOX'), buf
-        return cls(modutf7_decode(mailbox)), buf
+        try:
+            return cls(modutf7_decode(mailbox)), buf
+        except UnicodeError as exc:
+            raise NotParseable(buf) from exc
 
     def __bytes__(self) -> bytes:
         if self._raw is not None:
